@@ -150,6 +150,10 @@ func sigTreeDiff(want, got any) string {
 			if w != g {
 				ws, _ := w.(string)
 				gs, _ := g.(string)
+				if strings.HasPrefix(ws, "@") && strings.HasPrefix(gs, "@") {
+					path = append(path, "position differs")
+					return true
+				}
 				path = append(path, fmt.Sprintf("%q became %q", normText(ws), normText(gs)))
 				return true
 			}
